@@ -105,6 +105,10 @@ def cases(tier, seed):
             out.append({"id": "lin:%s:%s" % (th, sc), "kind": "lin",
                         "th": th, "sc": sc})
     out.append({"id": "lin:typed-polarization", "kind": "lintyped"})
+    for what in ("n", "r", "n+r"):
+        for wth in ("alone", "in-collection"):
+            out.append({"id": "chlayered:%s:%s" % (what, wth),
+                        "kind": "chlayered", "what": what, "with": wth})
     # a close pair of spheres (interacting: the default theory is
     # Multisphere) with channel-dependent index or radius
     for what in ("n-dict", "n-xarray", "r-dict", "n-dict+r-dict"):
@@ -422,6 +426,68 @@ def _run_ch(case, ck):
     return digest(*fps)
 
 
+def _run_chlayered(case, ck):
+    """a layered sphere whose per-channel index / radii are labelled arrays
+    (illumination x layer), alone and next to a uniform sphere"""
+    import xarray as xr
+    from holopy.scattering import (Sphere, Spheres, Mie, calc_holo,
+                                   calc_field)
+    labels = ["red", "green", "blue"]
+    nlay = {"red": [1.45, 1.59], "green": [1.46, 1.6], "blue": [1.47, 1.62]}
+    rlay = {"red": [0.3, 0.5], "green": [0.3, 0.5], "blue": [0.28, 0.52]}
+    order = ["green", "blue", "red"]            # not the detector's order
+
+    def arr(tab):
+        return xr.DataArray([tab[l] for l in order],
+                            dims=["illumination", "layer"],
+                            coords={"illumination": order})
+    what = case["what"]
+    nv = arr(nlay) if "n" in what else nlay["red"]
+    rv = arr(rlay) if "r" in what else rlay["red"]
+    c1, c2 = (0.17, 0.21, 5.0), (3.1, -2.6, 6.4)
+
+    def mk(n, r):
+        lay = Sphere(n=n, r=r, center=c1)
+        if case["with"] == "alone":
+            return lay
+        with warnings.catch_warnings():
+            warnings.simplefilter("ignore")
+            return Spheres([lay, Sphere(n=1.45, r=0.3, center=c2)])
+    wl = {lab: WLS[lab] for lab in labels}
+    det = H.det_grid((3, 4), 0.1, extra_dims={"illumination": labels})
+    det1 = H.det_grid((3, 4), 0.1)
+    fps = []
+    for fn in (calc_holo, calc_field):
+        try:
+            with warnings.catch_warnings():
+                warnings.simplefilter("ignore")
+                multi = fn(det, mk(nv, rv), H.NMED, wl, (1, 0), theory=Mie())
+            ck.trans += 1
+        except Exception as e:
+            ck.true("multichannel-accepted", False, "%s of a layered sphere "
+                    "with labelled per-channel %s raised %s: %s" %
+                    (fn.__name__, what, type(e).__name__, e))
+            return "exc:" + type(e).__name__
+        for lab in labels:
+            n1 = nlay[lab] if "n" in what else nlay["red"]
+            r1 = rlay[lab] if "r" in what else rlay["red"]
+            with warnings.catch_warnings():
+                warnings.simplefilter("ignore")
+                one = fn(det1, mk(n1, r1), H.NMED, WLS[lab], (1, 0),
+                         theory=Mie())
+            ck.trans += 1
+            got = multi.sel(illumination=lab).transpose(*one.dims).values
+            e = float(np.abs(got - one.values).max() /
+                      np.spacing(float(np.abs(one.values).max())))
+            ck.metric("channels-layered-ulp", e)
+            ck.true("channel-equals-single", e <= 8, "layered sphere with "
+                    "labelled per-channel %s (%s): channel %r of %s differs "
+                    "from the single-channel calculation by %.3g ulp" %
+                    (what, case["with"], lab, fn.__name__, e))
+            fps.append(fp_values(got))
+    return digest(*fps)
+
+
 def _run_chcluster(case, ck):
     from holopy.scattering import (Sphere, Spheres, Multisphere, calc_holo,
                                    calc_field)
@@ -479,7 +545,7 @@ def _run_chcluster(case, ck):
 
 def run_case(case):
     ck = Checker()
-    fp = {"sup": _run_sup, "tree": _run_tree, "lin": _run_lin, "lintyped": _run_lintyped,
+    fp = {"sup": _run_sup, "tree": _run_tree, "lin": _run_lin, "lintyped": _run_lintyped, "chlayered": _run_chlayered,
           "ch": _run_ch, "chcluster": _run_chcluster}[case["kind"]](case, ck)
     if fp == "unsupported":
         return ck.result(fp=fp, outcome="refused", nontrivial=False)
